@@ -1,4 +1,6 @@
 import I18n.Model.Date
+import I18n.Generated.GettextDate
+import I18n.Generated.CheckDates
 import I18n.Driver.Util
 /- Driver for the date model:
    `date fix <hex s> <hex hint|none>`, `date instant <hex t>`,
@@ -28,6 +30,17 @@ def showTags : Option (List Tag) → String
 
 def handle (op : String) (args : List String) : String :=
   match op, args with
+  -- the definitions REGENERATED from lib/gettext.py (`I18n.Generated.GettextDate`), on the protocol of `fix` / `instant`
+  | "gfix", [s, h] => match Generated.GettextDate.fix_date_format (Driver.unhexChars s) (optStr h) with
+    | .ok t => s!"ok {Driver.hexChars t}"
+    | .error e => "err " ++ e.name
+  | "gcheck", [ct, b, t, now, pot, po] =>
+    match Generated.CheckDates.check_dates [] ⟨optStr ct, b == "1", t == "1", strList pot, strList po, Driver.parseInt now⟩ with
+    | .ok ts => showTags (some ts)
+    | .error e => "err " ++ e.name
+  | "ginstant", [t] => match Generated.GettextDate.parse_date (Driver.unhexChars t) with
+    | .ok st => s!"ok {st.minutes}"
+    | .error e => "err " ++ e.name
   | "fix", [s, h] => showOutcome (fix (Driver.unhexChars s) (optStr h))
   | "instant", [t] => match parseCanon (Driver.unhexChars t) with
     | some st => s!"ok {st.minutes}"
